@@ -41,6 +41,29 @@ def make_generate(version):
                     for d in range(0, D + 1):
                         add(fair, False, d, ps, [], "exhaustive-small")
                         add(rate, False, d, ps, [], "exhaustive-small")
+        # exact halves: dividend*p/sum = k + 1/2 for some listed p -- where the order of the float64 operations decides the rounding
+        want = 300 if tier == "quick" else 6000
+        tries = 0
+        nh = 0
+        while nh < want and tries < 4000 * want:
+            tries += 1
+            k = rng.randrange(2, 5)
+            ps = sorted(rng.sample(range(1, rng.choice([8, 16, 40, 100])), k), reverse=True)
+            S = sum(ps)
+            p0 = rng.choice(ps)
+            # 2*d*p0 = S (mod 2S)  <=>  d*p0 = S/2 (mod S): needs S even or ... solve by search over one period
+            sols = [d for d in range(1, 2 * S + 1) if (2 * d * p0) % (2 * S) == S]
+            if not sols:
+                continue
+            d = rng.choice(sols) + 2 * S * rng.randrange(0, 3)
+            # input selection only (never an oracle): most of the cases kept are those where the float64 value of (d/S)*p is NOT the
+            # exact half, i.e. where a different order of the operations rounds differently
+            sensitive = (d / S) * p0 != (2 * d * p0) / (2 * S)
+            if not sensitive and rng.random() < 0.97:
+                continue
+            shift = rng.choice([0, 0, 0, 10, 30])
+            add(rate, False, d, [q << shift for q in ps], [], "exact-half-sensitive" if sensitive else "exact-half")
+            nh += 1
         # medium: 5..8 priorities of moderate size, where Rate's leftover after rounding can exceed one unit
         for _ in range(400 if tier == "quick" else 8000):
             k = rng.randrange(5, 9)
@@ -131,6 +154,31 @@ def monitor(sc, ir):
 RULE = ("exhaustive over all non-empty subsets of small priority universes x dividends 0..D x {Fair, Rate}; random large "
         "magnitudes (priorities up to 2^20, dividends up to 2^32 with dividend*sum <= 2^50), pre-filled distributions with foreign "
         "keys, nil maps; malformed lists (empty, duplicates, unsorted) for correspondence only; non-trivial = well-formed list and dividend > 0")
+def cross_v1(scenarios, run_on):
+    """the same call on the v1 implementation (FairDivider / RateDivider): 'v1 and v2 produce identical distributions'"""
+    lines = []
+    for sc in scenarios:
+        e = list(sc.enc)
+        e[1] += 2
+        lines.append(e)
+    for sc, r in zip(scenarios, run_on("v1", lines)):
+        sc.meta["v1"] = (r.verdict, [int(v) for v in r.vals] if r.verdict == "ok" else None)
+
+
+def monitor_same(sc, ir):
+    m = sc.meta
+    if not m["wellformed"] or m["nil"]:
+        return []
+    v1v, v1 = m.get("v1", (None, None))
+    if ir.verdict != "ok" or v1v != "ok":
+        return [("implementation verdicts v2 %s / v1 %s" % (ir.verdict, v1v), None)]
+    a, b = canon([int(v) for v in ir.vals]), canon(v1)
+    if a != b:
+        return [("%s(%s, %d, %s): v2 returns %s, v1 returns %s" % (m["divider"], m["priorities"], m["dividend"], m["prefilled"], a, b),
+                 "divider-v1v2:%s:%s:%d" % (m["divider"], ",".join(map(str, m["priorities"])), m["dividend"]))]
+    return []
+
+
 SUITES = [Suite("pure-div-v2", make_generate("v2"), project, monitor, rule=RULE, version="v2"),
           Suite("pure-div-v1", make_generate("v1"), project, monitor, rule=RULE, version="v1")]
 ASSUMPTIONS = [
@@ -139,3 +187,7 @@ ASSUMPTIONS = [
     "order/closeness theorems are proved for the exact rational rounding part_q and for any rounding function meeting the two stated hypotheses",
     "priority 0 with Rate (sum possibly 0 => NaN) is outside the domain",
 ]
+_same = Suite("pure-div-v1-vs-v2", make_generate("v2"), None, monitor_same, rule=RULE + "; the same call is made on the v1 and the v2 implementation "
+              "and the two distributions are compared", version="v2", model=False)
+_same.cross = cross_v1
+SUITES.append(_same)
